@@ -124,19 +124,8 @@ def cli_restricted_roots(main: FuncInfo) -> List[ast.AST]:
     return out
 
 
-def run(rep: Report, tier: str):
-    repo = load_repo()
-    cg = CallGraph(repo)
-    rep.explanation = (
-        "Who-may-call analysis: class-hierarchy call graph (over-approximating: MRO + all overrides, untyped receivers go to "
-        "every method of that name, property loads are calls, all special methods rooted) explored from every analysis entry "
-        "point; every external callable / builtin / attribute read / dynamic dispatch in a reached function is classified by "
-        "the frozen effect tables. No forbidden operation reachable => nothing named by the input can be imported, resolved, "
-        "called, spawned, connected to or written, for every input."
-    )
-    rep.rule("C01.reach", "no forbidden operation (import/resolve/call/spawn/connect/write) is reachable from an analysis entry point", 150)
-    rep.rule("C01.fixture", "the positive fixture (a deliberately non-inert analysis and opcode) is flagged by the same engine", 2)
-    eps = entry_points(repo)
+def analysis_reach(repo: Repo, cg: CallGraph, eps):
+    """(reached, parent, sites) of the call graph explored from the analysis entry points (shared with C02/C13)."""
     ops, _ = opcode_registry(repo)
 
     def extra(s: CallSite):
@@ -156,7 +145,23 @@ def run(rep: Report, tier: str):
                         out.add(m)
         return out
 
-    reached, parent, sites = cg.reachable([(f, r) for f, r, _ in eps], extra_edges=extra)
+    return cg.reachable([(f, r) for f, r, _ in eps], extra_edges=extra)
+
+
+def run(rep: Report, tier: str):
+    repo = load_repo()
+    cg = CallGraph(repo)
+    rep.explanation = (
+        "Who-may-call analysis: class-hierarchy call graph (over-approximating: MRO + all overrides, untyped receivers go to "
+        "every method of that name, property loads are calls, all special methods rooted) explored from every analysis entry "
+        "point; every external callable / builtin / attribute read / dynamic dispatch in a reached function is classified by "
+        "the frozen effect tables. No forbidden operation reachable => nothing named by the input can be imported, resolved, "
+        "called, spawned, connected to or written, for every input."
+    )
+    rep.rule("C01.reach", "no forbidden operation (import/resolve/call/spawn/connect/write) is reachable from an analysis entry point", 150)
+    rep.rule("C01.fixture", "the positive fixture (a deliberately non-inert analysis and opcode) is flagged by the same engine", 2)
+    eps = entry_points(repo)
+    reached, parent, sites = analysis_reach(repo, cg, eps)
     n_ext = 0
     findings = 0
     unaudited: List[str] = []
